@@ -208,6 +208,8 @@ LibIface(p, n) ==
     [] p = "Ssync" /\ n = "Locker" -> [tps |-> << >>, es |-> << >>, ms |-> <<Meth("Lock", << >>, << >>, FALSE), Meth("Unlock", << >>, << >>, FALSE)>>]
 
 \* decls: function name -> local declaration record (tps as sequence of [n, c])
+\* TI: a foreign interface whose method mentions a THIRD package (time): embedding it in an anonymous interface must not
+\* import that package.
 DeclOf(decls, t) ==
   IF t.p = "SRC" THEN LET d == decls[t.n] IN [tps |-> [i \in 1..Len(d.tps) |-> d.tps[i].n], es |-> d.es, ms |-> d.ms]
   ELSE LibIface(t.p, t.n)
@@ -251,11 +253,13 @@ PickByName(ms, n) == CHOOSE m \in ms : m.n = n
 Candidates == {B("int"), B("string"), B("uint8"), N("SRC", "LE"), N("SRC", "LT"), N("SRC", "LS"), N("SRC", "LSI"), N("FX", "E"),
                Ptr(N("SRC", "LT")), Slice(N("FX", "T")), Slice(N("Stime", "Duration")), Slice(N("SRC", "LT")), Slice(N("FY", "T")),
                Map(B("string"), Ptr(N("FX", "T"))), Fn(<<V("", N("Scontext", "Context"))>>, <<V("", B("error"))>>, FALSE),
-               N("SRC", "LL")}                                     \* type LL int with Less(LL) bool and String() string
+               N("SRC", "LL"), N("SRC", "LLeaf"), N("FX", "Leaf")}      \* LLeaf / FX.Leaf: struct types with Pos() int and isNode()                                     \* type LL int with Less(LL) bool and String() string
 UnderlyingOf(t) == IF t.k = "named" THEN (IF t.n \in {"LE", "LSI", "E", "LL"} THEN B("int") ELSE [k |-> "struct-decl", n |-> t.n]) ELSE t
 IsComparableType(t) == t.k \in {"basic", "named", "ptr"}
 \* methods constraints of the alphabet ask for: String() string, Less(T) bool (recursive constraint)
-HasMethodNamed(t, m) == t.k = "named" /\ ((m = "String" /\ t.n \in {"LS", "LSI", "LL"}) \/ (m = "Less" /\ t.n = "LL"))
+HasMethodNamed(t, m) == t.k = "named" /\ (\/ (m = "String" /\ t.n \in {"LS", "LSI", "LL"}) \/ (m = "Less" /\ t.n = "LL")
+                                          \/ (m \in {"Pos", "isNode"} /\ t.n \in {"LLeaf", "Leaf"}))
+\* an unexported method can only be provided by a type of the package that declares the constraint
 \* named constraints of the helper packages / the package under test, as element lists
 NamedConstraint(n) ==
   CASE n \in {"C", "LC"} -> Iface(<< >>, <<Union(<<B("int"), B("string")>>)>>)
@@ -263,12 +267,14 @@ NamedConstraint(n) ==
     [] n = "Number"   -> Iface(<< >>, <<Union(<<B("int"), B("int64")>>)>>)
     [] n = "LStr"     -> Iface(<< >>, <<Union(<<B("string")>>)>>)
     [] n = "Stringer" -> Iface(<<Meth("String", << >>, <<V("", B("string"))>>, FALSE)>>, << >>)
+    \* sealed constraints: an exported and an UNEXPORTED method -- only types of the declaring package satisfy them
+    [] n \in {"LSealed", "Sealed"} -> Iface(<<Meth("Pos", << >>, <<V("", B("int"))>>, FALSE), Meth("isNode", << >>, << >>, FALSE)>>, << >>)
 \* does type t satisfy constraint (element) cn?  A constraint with several elements is the INTERSECTION of its elements.
 RECURSIVE Sat(_, _)
 Sat(t, cn) ==
   CASE cn.k = "basic" -> IF cn.n = "any" THEN TRUE ELSE IF cn.n = "comparable" THEN IsComparableType(t) ELSE t = cn
     [] cn.k = "union" -> \E i \in 1..Len(cn.ts) : IF cn.ts[i].k = "plain" THEN t = cn.ts[i].e ELSE UnderlyingOf(t) = cn.ts[i]
-    [] cn.k = "named" -> Sat(t, NamedConstraint(cn.n))
+    [] cn.k = "named" -> Sat(t, NamedConstraint(cn.n)) /\ (cn.n \in {"LSealed", "Sealed"} => (t.k = "named" /\ t.p = cn.p))
     [] cn.k = "iface" -> /\ \A i \in 1..Len(cn.es) : Sat(t, cn.es[i])
                          /\ \A i \in 1..Len(cn.ms) : HasMethodNamed(t, cn.ms[i].n)
 ConstraintModels(cn) == {t \in Candidates : Sat(t, cn)}
